@@ -23,6 +23,7 @@ from . import boot
 
 VERIF = boot.VERIF_DIR
 DEFAULT_SEED = 20260927
+SIG_CAP = 6000000
 
 # property -> machine module, runs per tier, level
 PROPS = {}
@@ -525,8 +526,11 @@ def check(prop, tier, seed, workers=16, runs=None, wall_cap=None, verbose=True):
             res = f.result()
             merge_stats(agg["stats"], res["stats"])
             merge_stats(agg["known"], res["known"])
-            agg["sigs"] |= res["sigs"]
-            agg["states"] |= res["states"]
+            # distinct counting is exact up to SIG_CAP entries, a lower bound beyond (memory)
+            if len(agg["sigs"]) < SIG_CAP:
+                agg["sigs"] |= res["sigs"]
+            if len(agg["states"]) < SIG_CAP:
+                agg["states"] |= res["states"]
             agg["evaluations"] += res["evaluations"]
             agg["steps"] += res["steps"]
             agg["cpu_s"] += res["cpu_s"]
@@ -626,6 +630,7 @@ def check(prop, tier, seed, workers=16, runs=None, wall_cap=None, verbose=True):
                 "stopped_early_on_violations": stopped_early,
                 "operations_executed": agg["steps"],
                 "distinct_states": len(agg["states"]),
+                "distinct_counts_are_lower_bounds": len(agg["sigs"]) >= SIG_CAP or len(agg["states"]) >= SIG_CAP,
                 "runs_per_hour": int(agg["evaluations"] / max(search_wall, 1e-6) * 3600),
                 "seeds_per_hour": int(completed / max(search_wall, 1e-6) * 3600),
                 "cpu_seconds": round(agg["cpu_s"], 1),
